@@ -230,7 +230,7 @@ fn parse_dns_server(entry: &str) -> std::io::Result<SocketAddr> {
 /// Hooks for the verification harness: names that cannot be resolved offline, and
 /// "beyond the cache lifetime" without a real 60 s wait (the cache uses `std::time::Instant`).
 #[cfg(feature = "verif")]
-pub mod verif_api {
+pub mod verif_dns {
     use super::*;
 
     /// Insert an entry exactly as a successful lookup would (addresses carry the port of the
